@@ -3,6 +3,10 @@
 
 Readable operations are encoded into the case-line syntax of harness/src/bin/h_fs.rs. Run from /verif:
     python3 corpus/fs.witness.py
+
+CAUTION (round 4): known_findings.d/fs.json and corpus/fs.txt have since been edited by hand (F-fs-13 fixed, the text of F-fs-7,
+directed `d-*` corpus lines). Running this script as it stands would overwrite those edits: bring the FIXED / BEFORE tables and the
+texts below in line with known_findings.d/fs.json first, and re-append the `d-*` lines afterwards.
 """
 import json, os, base64, zlib
 
